@@ -32,15 +32,21 @@ package main
 
 //@ func (*BackendChangeListenerMgr).HandleBackendAdded
 //@   srequires nn-backend: nonNil(backend)
-//@   trusted call-event ghost bmAdds; listener fan-out verified separately
-//@   modifies bmAdds
-//@   ensures bmAdds == old(bmAdds) ++ seq1(backend)
+//@   props C05 C19
+//@   event bmAdds: backend
+//@   modifies lnAdds
+//@   ensures fan-out: lnAdds == old(lnAdds) ++ bm.listeners
+//@   loop 0:
+//@     invariant 0 <= $i && $i <= len(bm.listeners) && lnAdds == old(lnAdds) ++ bm.listeners[0:$i]
 
 //@ func (*BackendChangeListenerMgr).HandleBackendRemoved
 //@   srequires nn-backend: nonNil(backend)
-//@   trusted call-event ghost bmRemoves; listener fan-out verified separately
-//@   modifies bmRemoves
-//@   ensures bmRemoves == old(bmRemoves) ++ seq1(backend)
+//@   props C05 C19
+//@   event bmRemoves: backend
+//@   modifies lnRemoves
+//@   ensures fan-out: lnRemoves == old(lnRemoves) ++ bm.listeners
+//@   loop 0:
+//@     invariant 0 <= $i && $i <= len(bm.listeners) && lnRemoves == old(lnRemoves) ++ bm.listeners[0:$i]
 
 // ---- RoundRobinBackend ----
 
@@ -69,7 +75,7 @@ package main
 //@   props C05 C19
 //@   requires leaf: !isType(backend, "*RoundRobinBackend")
 //@   event rrAdds: backendAddr(backend)
-//@   modifies rb.backends, mapof(rb.backendMap), bmAdds
+//@   modifies rb.backends, mapof(rb.backendMap), bmAdds, lnAdds
 //@   ensures list: rb.backends == old(rb.backends) ++ seq1(backend)
 //@   ensures map: has(rb.backendMap, backendAddr(backend)) && rb.backendMap[backendAddr(backend)] == backend
 //@   ensures mapframe: forall k string :: k != backendAddr(backend) ==> has(rb.backendMap, k) == old(has(rb.backendMap, k)) && rb.backendMap[k] == old(rb.backendMap[k])
@@ -78,7 +84,7 @@ package main
 //@ func (*RoundRobinBackend).RemoveBackend
 //@   props C05 C19
 //@   event rrRemoves: address
-//@   modifies rb.backends, mapof(rb.backendMap), closedB, bmRemoves
+//@   modifies rb.backends, mapof(rb.backendMap), closedB, bmRemoves, lnRemoves
 //@   ensures absent: !old(has(rb.backendMap, address)) ==> rb.backends == old(rb.backends) && !has(rb.backendMap, address) && closedB == old(closedB) && bmRemoves == old(bmRemoves)
 //@   ensures mapdel: !has(rb.backendMap, address)
 //@   ensures mapframe: forall k string :: k != address ==> has(rb.backendMap, k) == old(has(rb.backendMap, k)) && rb.backendMap[k] == old(rb.backendMap[k])
@@ -297,7 +303,7 @@ package main
 
 //@ func (*RoundRobinBackend).hostIPChanged
 //@   props C19
-//@   modifies rb.backends, mapof(rb.backendMap), closedB, bmAdds, bmRemoves, rrAdds, rrRemoves
+//@   modifies rb.backends, mapof(rb.backendMap), closedB, bmAdds, bmRemoves, rrAdds, rrRemoves, lnAdds, lnRemoves
 //@   ensures removes: rrRemoves == old(rrRemoves) ++ mapHostPort(removedIPs, port)
 //@   ensures adds-tcp: protocol == "tcp" ==> rrAdds == old(rrAdds) ++ mapHostPort(newIPs, port)
 //@   ensures adds-bounded: len(rrAdds) <= len(old(rrAdds)) + len(newIPs) && len(rrAdds) >= len(old(rrAdds))
@@ -1303,9 +1309,11 @@ package main
 
 //@ iface BackendChangeListener.HandleBackendAdded
 //@   srequires nn-backend: nonNil(backend)
+//@   event lnAdds: self
 
 //@ iface BackendChangeListener.HandleBackendRemoved
 //@   srequires nn-backend: nonNil(backend)
+//@   event lnRemoves: self
 
 //@ func ParseMessage
 //@   sensures nn: err == nil ==> result != nil
